@@ -640,4 +640,4 @@ def strategy(tier):
 
 
 def budget(tier):
-    return 16 * 300 if tier == "quick" else 16 * 6000
+    return 16 * 300 if tier == "quick" else 16 * 3000
